@@ -125,7 +125,7 @@ func Rewrites(repoDir string) map[string][]byte {
 }
 
 // SourcePkgs are dependencies executed from source rather than modelled.
-var SourcePkgs = []string{"github.com/pkg/errors", "bytes", "io", "encoding/binary", "github.com/gin-gonic/gin", "container/list", "unicode/utf8", "slices", "cmp"}
+var SourcePkgs = []string{"github.com/pkg/errors", "bytes", "io", "encoding/binary", "github.com/gin-gonic/gin", "container/list", "unicode/utf8", "slices", "cmp", "crypto/subtle", "crypto/internal/fips140/subtle"}
 
 // Load loads the repository with all harness files; if that does not type-check it retries
 // without the optional harness files (those that call unexported repository functions whose
